@@ -140,6 +140,20 @@ def run(chk):
         exp_kill = 'K' in line
         if ('verdict=1' in m) != exp_kill:
             chk.mismatch('death-scan model sanity', {'events': line}, 'expected verdict %d' % exp_kill, m)
+    # corpus first: minimised past failures / known findings (always re-run, so a known finding is reported on every run)
+    import glob
+    import json as _json
+    import os as _os
+    from harness.common import ROOT
+    corpus = []
+    for f in sorted(glob.glob(_os.path.join(ROOT, 'corpus', 'C07', '*.json'))):
+        try:
+            corpus.append(_json.load(open(f))['case']['scenario'])
+        except Exception:
+            pass
+    for sc, o in zip(corpus, par.run_all(corpus)):
+        cls = judge(chk, sc, o)
+        chk.count('corpus (minimised past failures, run first)', key=key_of(sc) + str(sc.get('inject')), nontrivial=True, sample={'scenario': sc, 'outcome': cls})
     bases = base_scenarios(rng, 6 if chk.tier == 'quick' else 80)
     bobs = inject.baseline(bases)
     swept = []
